@@ -174,9 +174,20 @@ theorem realResult_neg_trunc (neg : Bool) (v n x off j vt : Nat) (hv17 : 10 ^ 17
       omega
     obtain ⟨p, hp, hclose⟩ := powerOfNegativeTen_close_trunc v x j vt hv17 hv (by omega) ht1 ht2
     have hp63 := powerOfNegativeTen_lt v x p hp
-    refine ⟨⟨.real, p ||| (if neg then 0x8000000000000000 else 0), off⟩, ?_, rfl, Or.inr ⟨rfl, or_sign_div p neg hp63, ?_⟩⟩
+    refine ⟨⟨.real, p ||| (if neg then 0x8000000000000000 else 0), off⟩, ?_, rfl, Or.inr ⟨rfl, or_sign_div p neg hp63, ?_, ?_⟩⟩
     · unfold realResult; simp [hv0, hc, hp]
     · simp only [if_true]
       rw [or_sign_mod p neg hp63]; exact hclose
+    · simp only [if_true]
+      intro hov
+      exfalso
+      have h10j : 0 < 10 ^ j := Nat.pow_pos (by decide)
+      have h1 : vt < 2 ^ 64 * 10 ^ j := Nat.lt_of_lt_of_le ht2 (Nat.mul_le_mul_right _ (by omega))
+      have h2 : (2 : Nat) ^ 64 * 10 ^ j ≤ (2 ^ 53 - 1) * 2 ^ 971 * 10 ^ (x + j) := by
+        rw [Nat.pow_add, ← Nat.mul_assoc]
+        apply Nat.mul_le_mul_right
+        have h3 : (2 : Nat) ^ 64 ≤ (2 ^ 53 - 1) * 2 ^ 971 * 1 := by decide +kernel
+        exact Nat.le_trans h3 (Nat.mul_le_mul_left _ (Nat.pow_pos (by decide)))
+      omega
 
 end Qentem.StrToNum
